@@ -193,8 +193,18 @@ func (env *Env) ident(name string) *Val {
 	}
 	if env.useVars && env.fr != nil {
 		if v, ok := env.fr.vars[name]; ok {
-			if pv, isParam := env.names[name]; isParam && env.inOld && v.T != "addr" && pv.T != "addr" && pv.Ty != nil && v.Ty != nil && types.Identical(pv.Ty, v.Ty) {
-				return env.materialize(pv)
+			if pv, isParam := env.names[name]; isParam && env.inOld && pv.T != "addr" && pv.Ty != nil && v.Ty != nil {
+				if v.T != "addr" && types.Identical(pv.Ty, v.Ty) {
+					return env.materialize(pv)
+				}
+				// a parameter that lives in a cell allocated by this function
+				// (captured by a closure): the cell does not exist in the entry
+				// state, the entry value is the parameter itself
+				if v.T == "addr" {
+					if pt, ok := v.Ty.Underlying().(*types.Pointer); ok && types.Identical(pt.Elem(), pv.Ty) {
+						return env.materialize(pv)
+					}
+				}
 			}
 			return env.materialize(v)
 		}
